@@ -709,6 +709,23 @@ class Interp:
             if kk in ("list", "dict", "set", "tuple"):
                 other = b if v is a else a
                 if T.strip_opt(other.ty).k in ("list", "dict", "set", "tuple", "any"):
+                    # list == list where one side has a literal length (a display): same length, element-wise equal scalars
+                    if kk == "list" and T.strip_opt(other.ty).k in ("list", "any"):
+                        for x_, y_ in ((v, other), (other, v)):
+                            if T.strip_opt(x_.ty).k != "list":
+                                continue
+                            n_ = self.list_len(x_)
+                            if z3.is_int_value(n_) and n_.as_long() <= 16:
+                                ety = self.list_elty(x_)
+                                if T.strip_opt(ety).k in ("list", "dict", "set", "tuple", "obj"):
+                                    break
+                                oth = SV(y_.t, T.LIST(T.ANY)) if T.strip_opt(y_.ty).k == "any" else y_
+                                conj = [smt.is_ref(y_.t), self.list_len(oth) == n_]
+                                if T.strip_opt(y_.ty).k == "any":
+                                    conj.append(z3.Select(self.st.arr("cls"), smt.rid(y_.t)) == LIST_CID)
+                                for i_ in range(n_.as_long()):
+                                    conj.append(self.list_get(x_, z3.IntVal(i_)).t == self.list_get(oth, z3.IntVal(i_)).t)
+                                return z3.And(*conj)
                     raise Refuse("== on containers")
         if ka == "any" or kb == "any":
             na = z3.Or(smt.is_int(a.t), smt.is_real(a.t), smt.is_bool(a.t))
